@@ -39,6 +39,9 @@ class BaseGotranODECodePrinter(StrPrinter):
             "!=": "Ne",
         }
         relop = relop2str[expr.rel_op]
+        if relop == "Ne":
+            # The grammar has no Ne; sympy turns Not(Eq(a, b)) into Ne(a, b)
+            return f"Not(Eq({lhs}, {rhs}))"
         return f"{relop}({lhs}, {rhs})"
 
     def _print_Or(self, expr):
